@@ -305,13 +305,16 @@ def _unshift(db, chk):
             check_term(chk, rule, "id distinguishes series of the same name (stream)", where, E.col("id"), [T.col(S, "id")])
         chk.ob(rule, f"[name col={has_name}] events are emitted as one record per series row", to_term(r.ret)[0] == "to_dict" and to_term(r.ret)[1] == E.ctx(), where,
                found=T.show(to_term(r.ret))[:100], accepted="events_df.to_dict('records')")
-    # the shift subtracted at load time is the same attribute
+    # the shift subtracted at load time is the same attribute: decided on the evaluated final state of _align_all_ranks (every rank's ts = file ts - self.min_ts,
+    # whatever helper does the subtraction), shared with C01
+    from .c01 import _shift
+    from .c09 import _Prefixed
+    _shift(db, _Prefixed(chk, rule), rule=rule)
     al = tm.func("Trace._align_all_ranks")
-    subs = [n for n in ast.walk(al) if isinstance(n, ast.BinOp) and isinstance(n.op, ast.Sub) and H.is_self_attr(n.right, "min_ts")]
-    stores = [a for a in H.attr_store_names(al, "self")]
-    chk.ob(rule, "_align_all_ranks subtracts self.min_ts (the attribute added back) and is its only writer besides __init__", len(subs) >= 1 and "min_ts" in stores and
-           all("min_ts" not in H.attr_store_names(fn, "self") for q, fn in tm.functions.items() if q.startswith("Trace.") and q not in ("Trace._align_all_ranks", "Trace.__init__")),
-           tm.loc(al), found={"subtractions": len(subs), "stores": stores}, accepted="ts - self.min_ts ; self.min_ts = ...")
+    allowed = {tm.qualname_of(g) for w in ("Trace._align_all_ranks", "Trace.__init__") for g in H.with_private_callees(tm, tm.func(w))}
+    writers = sorted(q for q, fn in tm.functions.items() if q.startswith("Trace.") and "min_ts" in H.attr_store_names(fn, "self"))
+    chk.ob(rule, "the stored shift is written by _align_all_ranks (and __init__) only", bool(writers) and set(writers) <= allowed, tm.loc(al), found=writers, accepted=sorted(allowed),
+           why="another writer changes the amount that is added back to the counter events after the frames were shifted")
     chk.floor(rule, 12)
 
 
